@@ -145,8 +145,34 @@ func TestE2EKeepAlive(t *testing.T) {
 	var mu sync.Mutex
 	var idx int64 = -1
 	var wg sync.WaitGroup
-	for wk := 0; wk < runtime.NumCPU(); wk++ {
+	nw := runtime.NumCPU()
+	cur := make([]int64, nw)
+	since := make([]int64, nw)
+	for i := range cur {
+		cur[i] = -1
+	}
+	// hang watchdog (real time, outside the bubbles), as in TestE2EReplay
+	go func() {
+		for {
+			time.Sleep(time.Second)
+			for w := 0; w < nw; w++ {
+				i, t0 := atomic.LoadInt64(&cur[w]), atomic.LoadInt64(&since[w])
+				if i >= 0 && t0 > 0 && time.Since(time.Unix(0, t0)) > 30*time.Second {
+					mu.Lock()
+					res.Violations = append(res.Violations, kaViolation{cases[i], "C20/E-engine-hung", "the real pair made no further progress on this script (the run did not finish within 30 s of real time; virtual time is free): an engine goroutine is blocked for ever", nil})
+					res.NotRun += len(cases) - res.Runs - res.NotRun - 1
+					ob, _ := json.Marshal(res)
+					if outPath != "" {
+						os.WriteFile(outPath, ob, 0o644)
+					}
+					os.Exit(0)
+				}
+			}
+		}
+	}()
+	for wk := 0; wk < nw; wk++ {
 		wg.Add(1)
+		wk := wk
 		go func() {
 			defer wg.Done()
 			for {
@@ -163,7 +189,10 @@ func TestE2EKeepAlive(t *testing.T) {
 				if stop {
 					continue
 				}
+				atomic.StoreInt64(&since[wk], time.Now().UnixNano())
+				atomic.StoreInt64(&cur[wk], int64(i))
 				rule, what, trace, frames, outcome, err := kaRun(t, cases[i], fmt.Sprintf("k%d.%d", os.Getpid(), i))
+				atomic.StoreInt64(&cur[wk], -1)
 				mu.Lock()
 				res.Runs++
 				res.Frames += frames
